@@ -21,6 +21,13 @@ structure NumOps where
   div : Dec → Dec → Option Dec
   /-- `FeelNumber::pow`: `some none` = not finite (FEEL null), `none` = unsupported -/
   pow : Dec → Dec → Option (Option Dec)
+  /-- `build_numeric`: the literal `before.after` read by `dec_from_string`; `some none` = the
+  text is not a number (FEEL null), `none` = unsupported -/
+  literal : String → String → Option (Option Dec)
+
+/-- the natural number a digit string denotes -/
+def digitsToNat (cs : List Char) : Option Nat :=
+  cs.foldlM (fun acc c => if c.isDigit then some (acc * 10 + (c.toNat - '0'.toNat)) else none) 0
 
 /-- digits of a natural number -/
 def Nat.digitCount (n : Nat) : Nat := (Nat.toDigits 10 n).length
@@ -40,6 +47,12 @@ def NumOps.exact : NumOps where
         if Nat.digitCount r.coeff ≤ 34 then some r else none
       else none
   pow := fun _ _ => none
+  literal := fun before after =>
+    match digitsToNat (before.toList ++ after.toList) with
+    | some c =>
+      if Nat.digitCount c ≤ 34 ∧ before.length > 0 then some (some ⟨false, c, -(after.length : Int)⟩)
+      else none
+    | none => none
 
 namespace Value
 
@@ -98,16 +111,11 @@ def negV (v : Value) : Value :=
   | .dtDur a => .dtDur (-a)
   | _ => .null
 
-/-- `build_numeric`: the literal `before.after` read by `dec_from_string` (exact while it has
-at most 34 significant digits). -/
-def digitsToNat (cs : List Char) : Option Nat :=
-  cs.foldlM (fun acc c => if c.isDigit then some (acc * 10 + (c.toNat - '0'.toNat)) else none) 0
-
-def numericV (before after : String) : Value :=
-  match digitsToNat (before.toList ++ after.toList) with
-  | some c =>
-    if Nat.digitCount c ≤ 34 ∧ before.length > 0 then .num ⟨false, c, -(after.length : Int)⟩
-    else unsupported
+/-- `build_numeric` -/
+def numericV (n : NumOps) (before after : String) : Value :=
+  match n.literal before after with
+  | some (some d) => .num d
+  | some none => .null
   | none => unsupported
 
 /-- `build_if` selects the branch: `some true` = then, `some false` = else, `none` = null. -/
